@@ -165,6 +165,57 @@ def gen_cases(tier, rng):
         else:
             by[3].append({"t": "o", "s": GUNIT, "p": [list(P[i]) + [rng.randint(-2, 2) for _ in range(3)] for i in order]})
         made += 1
+    # "nearly coincident pair" family: two of the four points share their lattice coordinates and differ only by a few
+    # (up to 128) ulps, so one 2x2 minor of the floating-point evaluation is the difference of two products that agree to
+    # more than 53 bits: it rounds to exactly 0 although the exact minor is a non-zero second-order term, while the other
+    # terms are first order times zero or second order with either sign.  A filter that trusts "no term has the opposite
+    # sign" (or any reasoning on the rounded terms instead of an error bound) returns a wrong non-zero sign here.
+    # c0 = c1 = 0: decided at order 2 or 3; all vertex orders of every configuration.
+    made = 0
+    while made < (60 if tier == "quick" else 600):
+        dk = [rng.randint(0, 2), rng.randint(0, 2), rng.randint(0, 3)]
+        A = [rng.choice([1, 2, 3, -1]), rng.choice([1, 2, 3]), rng.choice([1, 2, 4, -2])]
+        B = [rng.choice([1, 2, 4]), rng.choice([1, 2, 4]), rng.choice([0, 0, 1])]
+        t = rng.choice([1, 2, 8, 64])
+        qb = [t * rng.randint(-2, 2) for _ in range(3)]
+        qc = [t * rng.randint(-2, 2) for _ in range(3)]
+        if qb == qc:
+            continue
+        pa = [dk[j] + A[j] for j in range(3)]
+        pb = [dk[j] + B[j] for j in range(3)]
+        if min(pa + pb) < 0 or max(pa + pb) > 7:
+            continue
+        P = [pa + zero, pb + qb, pb + qc, dk + zero]
+        for perm in itertools.permutations(range(4)):
+            by[3].append({"t": "o", "p": [list(P[i]) for i in perm]})
+        made += 1
+    # the sharpest members of that family: seen from d, the far point a and the pair b ~ c lie in one vertical plane (their
+    # xy projections are multiples of the same lattice vector (u, v)), the pair has no lattice height above d, and c - b is
+    # parallel to (u, v) to first order.  Then the (b, c) minor is exactly r t^2 (v e1 - u e2) - invisible in double
+    # precision next to products of order one - and the two other terms are second order as well: the exact sign is that of
+    # t (u e2 - v e1) [m1 (zc - zb) - Az r t], decided by which second-order term wins.
+    made = 0
+    while made < (60 if tier == "quick" else 600):
+        u, v = rng.choice([(1, 1), (1, 2), (2, 1), (1, 3)])
+        m1, m2 = rng.choice([(1, 2), (2, 1), (1, 1), (1, 3)])
+        dk = [rng.randint(0, 1), rng.randint(0, 1), rng.randint(0, 3)]
+        Az = rng.choice([1, 2, 4, -1, -2])
+        pa = [dk[0] + m1 * u, dk[1] + m1 * v, dk[2] + Az]
+        pb = [dk[0] + m2 * u, dk[1] + m2 * v, dk[2]]
+        if min(pa + pb) < 0 or max(pa + pb) > 7:
+            continue
+        t = rng.choice([1, 2, 8, 64])
+        e1, e2 = rng.randint(-2, 2), rng.randint(-2, 2)
+        if v * e1 == u * e2:
+            continue
+        r = rng.choice([1, -1, 2])
+        zb, zc = rng.choice([(0, 1), (0, -1), (1, 0), (0, 2), (-1, 0), (0, 0), (1, 1)])
+        qb = [t * e1, t * e2, zb]
+        qc = [t * e1 + r * t * u, t * e2 + r * t * v, zc]
+        P = [pa + zero, pb + qb, pb + qc, dk + zero]
+        for perm in itertools.permutations(range(4)):
+            by[3].append({"t": "o", "p": [list(P[i]) for i in perm]})
+        made += 1
     # coordinates must stay inside [1,2): a lattice coordinate 0 cannot be perturbed downwards
     for cases in by.values():
         for cs in cases:
